@@ -379,7 +379,7 @@ BOUNDARY_PARAMS_MIN = ["THcornTemp", "THedgeTemp", "cornerFastFlux", "pointsCorn
 PIN_PITCH = 1.1          # clad od 1.0 + wire od 0.1
 FREE_UNIT = 0.07         # free points:  x = X * FREE_UNIT, y = Y * sqrt(3) * FREE_UNIT, z = Z
 DISP_UNIT = 0.003        # displacement: dx = X * DISP_UNIT, dy = Y * sqrt(3) * DISP_UNIT
-NSLOT = 4
+NSLOT = 6
 
 
 class BlockAdapter:
@@ -398,12 +398,21 @@ class BlockAdapter:
         if not set(BOUNDARY_PARAMS_MIN) <= found:
             raise tlc.MachineryError("boundary parameters missing: %s" % sorted(set(BOUNDARY_PARAMS_MIN) - found))
         self.bnames = sorted(found)
+        # parameters declared array-valued (setter isNumpyArray) turn an assigned scalar into a 0-d array: a scalar is outside
+        # their type, so in the "scalar" variant (di = 2) they carry the six-vector of slot 1 instead of the special value
+        self.array_typed = set()
+        for name in self.bnames:
+            b.p[name] = 7.0
+            if isinstance(b.p[name], np.ndarray):
+                self.array_typed.add(name)
         self.templates = {}
 
     # -- fixtures ------------------------------------------------------------------------------------------
     def _circle(self, name, mult, clad):
+        """clad: True -> CLAD (a pin), False -> FUEL (counted by getNumPins, not a pin location), or the name of a flag that
+        getNumPins does not count ("COOLANT", "MODERATOR", "DUCT": prismatic blocks)"""
         c = self.components.Circle(name, "HT9", Tinput=25.0, Thot=25.0, od=1.0, id=0.8, mult=mult)
-        c.p.flags = self.Flags.CLAD if clad else self.Flags.FUEL
+        c.p.flags = getattr(self.Flags, clad) if isinstance(clad, str) else (self.Flags.CLAD if clad else self.Flags.FUEL)
         return c
 
     def _pin_block(self, n, corner):
@@ -450,6 +459,13 @@ class BlockAdapter:
         elif lay == "mixed":
             kids = [("clad", True, multi([(1, 0), (2, 0), (0, 1), (-2, 1)])), ("clad1", True, g[1, 1, 0]),
                     ("fuel", False, g[0, 0, 0]), ("duct", False, free(-3, 1, 0)), ("liner", False, free(4, -2, 1))]
+        elif lay == "prism":
+            kids = [("channels", "COOLANT", multi([(1, 0), (-1, 1), (0, -1)])), ("rods", "MODERATOR", multi([(0, 1), (-1, 0), (1, -1)])),
+                    ("channel", "COOLANT", g[2, -1, 0]), ("sleeve", "DUCT", free(3, 1, 0)), ("plug", "MODERATOR", free(0, 2, 1))]
+        elif lay == "families":
+            kids = [("clad", True, multi([(1, 0), (-1, 1), (0, -1)])), ("cladb", True, multi([(0, 1), (-1, 0), (1, -1)])),
+                    ("control", False, multi([(2, 0), (-2, 2), (0, -2)])), ("fuel", False, multi([(1, 1), (-2, 1)])),
+                    ("duct", False, free(2, 0, 0))]
         else:
             raise tlc.MachineryError("unknown layout " + lay)
         for name, clad, loc in kids:
@@ -460,7 +476,10 @@ class BlockAdapter:
         return b
 
     def slot_of(self, idx, di):
-        return (idx + di - 1) % NSLOT + 1
+        s = (idx + di - 1) % NSLOT + 1
+        if s == 3 and di == 2 and self.bnames[idx] in self.array_typed:
+            return 1
+        return s
 
     def template(self, cf):
         key = (cf["o"], cf["lay"], cf["di"])
@@ -478,8 +497,14 @@ class BlockAdapter:
                     b.p[name] = np.array([21.0, 22.0, 23.0, 24.0, 25.0, 26.0])
                 elif s == 3:
                     b.p[name] = copy.copy(special)
-                else:
+                elif s == 4:
                     b.p[name] = [41, 42, 43, 44, 45, 46] if idx % 2 else np.array([41, 42, 43, 44, 45, 46])
+                elif s == 5:      # one vector per corner / edge: 2-D array of shape (6, n)
+                    n = (di - 1) % 3 + 1
+                    b.p[name] = np.array([[500.0 + 10 * m + g for g in range(1, n + 1)] for m in range(1, 7)])
+                else:             # six lists (di odd) / six arrays (di even)
+                    rows = [[600.0 + 10 * m + g for g in (1, 2)] for m in range(1, 7)]
+                    b.p[name] = rows if di % 2 else [np.array(r) for r in rows]
             disp = {1: (2, 0), 2: (3, -1), 3: None, 4: (-1, 3)}[di]
             if disp is None:
                 b.p.displacementX = None
@@ -524,8 +549,18 @@ class BlockAdapter:
         np = self.np
         if v is None:
             return {"kind": "none", "v": []}
+        if isinstance(v, np.ndarray) and v.ndim == 0:
+            return {"kind": "array0d", "v": [snap(v)]}
         if isinstance(v, (list, np.ndarray)):
-            return {"kind": "vec", "v": [snap(x) for x in v]}
+            if len(v) and all(isinstance(x, (list, np.ndarray)) for x in v):
+                try:
+                    return {"kind": "rows", "v": [[snap(y) for y in x] for x in v]}
+                except TypeError:
+                    return {"kind": "rows:nested", "v": []}
+            try:
+                return {"kind": "vec", "v": [snap(x) for x in v]}
+            except TypeError:
+                return {"kind": "vec:ragged", "v": []}
         if isinstance(v, (int, float, np.integer, np.floating)):
             return {"kind": "scalar", "v": [snap(v)]}
         return {"kind": type(v).__name__, "v": []}
@@ -712,7 +747,7 @@ def check_blocks(rep, graphs, thorough, seed, ad=None):
             "every edge (s,a,t) of TLC's graph is executed as path(s);a on freshly copied real HexBlocks inside a real "
             "HexAssembly and the complete projection (child locators, pins, pin coordinates, all corner/edge parameters, "
             "displacement, orientation, error) compared; non-trivial = the abstract state changes",
-            None if thorough else 2500, rng)
+            None if thorough else 4000, rng)
         total += n
         e = g.edges[len(g.edges) // 2]
         rep.sample({"kind": "block-edge", "config": cfg, "path": [s["act"] for s in g.path[e["_fk"]]], "act": e["act"],
@@ -720,7 +755,7 @@ def check_blocks(rep, graphs, thorough, seed, ad=None):
     return total
 
 
-LAYOUTS = ["p1", "p7", "p19", "singles", "mixed", "nogrid"]
+LAYOUTS = ["p1", "p7", "p19", "singles", "mixed", "nogrid", "prism", "families"]
 
 
 def block_traces(ad, ntraces, nev, seed):
@@ -835,7 +870,7 @@ def run(rep, tier, seed):
                    "seeded random walks of rotateIndex (k up to +-100000) on real grids; every event must be a Rotate(k) step "
                    "of HexSymmetry landing on the logged cell and lattice coordinates")
     trace_verdicts(rep, bad, "HexSymmetry")
-    bt = block_traces(ad, 300 if thorough else 50, 16, seed)
+    bt = block_traces(ad, 300 if thorough else 80, 16, seed)
     bad, stats = tracecheck.validate("BlockRotation_trace", "BlockRotation_trace.cfg", MODDIR, bt, timeout=2400)
     rep.add_tlc("trace-validation:assembly-rotation-histories", stats["tlc"])
     rep.add_traces("assembly-rotation-histories", len(bt), sum(len(t["ev"]) for t in bt),
@@ -1144,6 +1179,37 @@ def _mutants():
         for c, sl in keep[1:]:
             c.spatialLocator = sl
     out.append(("only the first multi-location child is rotated", "block", patch(HB, "_rotateChildLocations", rcl_multi)))
+
+    # 17b children of a lattice without pins are left in place
+    def rcl_nopins(self, radians, rotNum):
+        if self.spatialGrid is None or not self.getNumPins():
+            return
+        orig_rcl(self, radians, rotNum)
+    out.append(("lattice children of a block without pin components are not rotated", "block", patch(HB, "_rotateChildLocations", rcl_nopins)))
+
+    # 17c rotated site locators cached per family size: a second family of equal count lands on the first one's sites
+    def rcl_cache(self, radians, rotNum):
+        fams = [c for c in self if isinstance(c.spatialLocator, grids.MultiIndexLocation)]
+        sizes = {}
+        before = {}
+        for c in fams:
+            before[id(c)] = len(c.spatialLocator)
+        orig_rcl(self, radians, rotNum)
+        for c in fams:
+            n = before[id(c)]
+            if n in sizes:
+                c.spatialLocator = sizes[n]
+            else:
+                sizes[n] = c.spatialLocator
+    out.append(("rotated multi-index locators cached by family size and reused", "block", patch(HB, "_rotateChildLocations", rcl_cache)))
+
+    # 17d pivot of arrays by np.roll without an axis (2-D per-corner data slide across rows)
+    def pivot_roll(items, position):
+        import numpy as np
+        if isinstance(items, np.ndarray):
+            return np.roll(items, -position)
+        return orig_pivot(items, position)
+    out.append(("pivot: ndarray branch uses np.roll without axis", "block", patch(iterables, "pivot", pivot_roll)))
 
     # 18 assembly rotates all blocks but the top one
     def asm_rotate(self, rad):
